@@ -2,8 +2,8 @@
 from fractions import Fraction
 from .tracer import Sym, Cond
 
-FUNC_ORDER = ["sqrt", "cos", "sin", "acos", "atan2", "rpow"]
-FUNC_TYPE = {"sqrt": "K → K", "cos": "K → K", "sin": "K → K", "acos": "K → K",
+FUNC_ORDER = ["pi", "sqrt", "cos", "sin", "acos", "atan2", "rpow"]
+FUNC_TYPE = {"pi": "K", "sqrt": "K → K", "cos": "K → K", "sin": "K → K", "acos": "K → K",
              "atan2": "K → K → K", "rpow": "K → K → K"}
 
 HEADER = """/-
@@ -92,6 +92,8 @@ class ExprEmitter:
     def _render(self, e):
         op = e.op
         a = [self.term(x) for x in e.args if isinstance(x, Sym)]
+        if op == "pi":
+            return "pi"
         if op == "neg":
             return "(-%s)" % a[0]
         if op == "abs":
